@@ -230,12 +230,54 @@ func TestC38Paging(t *testing.T) {
 			}
 			model[string(k)] = append([]byte{}, v...)
 		}
+		// "for every state": also states reached through deletions and (limited) prefix
+		// clears, whose in-memory nodes carry history-dependent bookkeeping. The contents
+		// after such an operation are re-read key by key with point reads (Get), which
+		// share no code with the listing functions under test; what a limited clear
+		// removes is C02's subject, not C38's.
+		history := ""
+		nHist := 0
+		if len(pool) > 0 && rapid.IntRange(0, 2).Draw(t, "hist") > 0 {
+			nHist = rapid.IntRange(1, 4).Draw(t, "nhist")
+		}
+		for i := 0; i < nHist; i++ {
+			b := pool[rapid.IntRange(0, len(pool)-1).Draw(t, "hk")]
+			pfx := append([]byte{}, b[:rapid.IntRange(0, len(b)).Draw(t, "hcut")]...)
+			switch rapid.IntRange(0, 3).Draw(t, "hop") {
+			case 0:
+				if err := tr.Delete(b); err != nil {
+					t.Fatalf("Delete: %v", err)
+				}
+				history += fmt.Sprintf(" D%x", b)
+			case 1:
+				if err := tr.ClearPrefix(pfx); err != nil {
+					t.Fatalf("ClearPrefix: %v", err)
+				}
+				history += fmt.Sprintf(" C%x", pfx)
+			default:
+				lim := uint32(rapid.IntRange(1, 4).Draw(t, "hlim"))
+				if _, _, err := tr.ClearPrefixLimit(pfx, lim); err != nil {
+					t.Fatalf("ClearPrefixLimit: %v", err)
+				}
+				history += fmt.Sprintf(" L%x/%d", pfx, lim)
+			}
+			for k := range model {
+				if v := tr.Get([]byte(k)); v == nil {
+					delete(model, k)
+				} else if !bytes.Equal(v, model[k]) {
+					t.Fatalf("harness: Get(%x) changed from %x to %x after%s", k, model[k], v, history)
+				}
+			}
+		}
 		sm, err := env.module(tr)
 		if err != nil {
 			t.Fatalf("harness: %v", err)
 		}
-		descr := fmt.Sprintf("v1=%v %s", v1, model.Describe())
+		descr := fmt.Sprintf("v1=%v %s%s", v1, model.Describe(), history)
 		labels := map[string]bool{}
+		if nHist > 0 {
+			labels["state-reached-through-deletes-or-prefix-clears"] = true
+		}
 		if v1 {
 			labels["v1"] = true
 		}
